@@ -28,7 +28,31 @@ use std::{
     sync::Arc,
 };
 
+#[cfg(not(feature = "verif-hooks"))]
 const IMAGE_CACHE_SIZE: usize = 134217728; // 128MB
+
+/// Verification hook (only with feature `verif-hooks`): size of the sixel cache
+/// is taken from `SURF_N_TERM_VERIF_IMAGE_CACHE` at compile time, so eviction
+/// path can be exercised with small images.
+#[cfg(feature = "verif-hooks")]
+const IMAGE_CACHE_SIZE: usize = {
+    const fn parse(text: Option<&str>) -> usize {
+        match text {
+            None => 134217728,
+            Some(text) => {
+                let bytes = text.as_bytes();
+                let mut value = 0usize;
+                let mut index = 0;
+                while index < bytes.len() {
+                    value = value * 10 + (bytes[index] - b'0') as usize;
+                    index += 1;
+                }
+                value
+            }
+        }
+    }
+    parse(option_env!("SURF_N_TERM_VERIF_IMAGE_CACHE"))
+};
 
 /// Arc wrapped RGBA surface with precomputed hash
 #[derive(Clone)]
